@@ -3,7 +3,7 @@
    none, or one whose token occurs in that client's Accept-Encoding. (Model: Monitors.run_ae.) *)
 From Coq Require Import String.
 From Coq Require Import List NArith ZArith Bool.
-From Verif Require Import GoStr Sx Recompress Monitors C06Proofs.
+From Verif Require Import GoStr Sx Range Recompress Monitors C06Proofs.
 Import ListNotations.
 
 Definition ae_allowed (ae ce d : str) : Prop := d = ce \/ d = [] \/ contains ae d = true.
@@ -22,7 +22,8 @@ Proof.
   - destruct (str_eqb ce s_gzip); cbn; [right; left; reflexivity | left; reflexivity].
 Qed.
 
-(* what one observation of the model says was delivered *)
+(* what one observation of the model says was delivered ([] for the wildcard "a consistent part of the encoded
+   entry", whose encoding is the entry's: see the second theorem) *)
 Definition obs_delivered (o : sx) : str := sx_str (sx_nth 1 o).
 
 (* the cache's bookkeeping: every remembered entry holds what its own Accept-Encoding value is entitled to *)
@@ -35,14 +36,37 @@ Proof.
   intros Hs Hf. apply find_some in Hf as [Hin _]. unfold seen_ok in Hs. rewrite Forall_forall in Hs. exact (Hs _ Hin).
 Qed.
 
-Lemma run_ae_allowed recomp ce ct cc content : forall aes seen,
-  seen_ok ce seen ->
-  Forall2 (fun ae o => ae_allowed (ae_value ae) ce (obs_delivered o)) aes (run_ae recomp ce ct cc content aes seen).
+Lemma ae_ranged_delivered content rr edge n : obs_delivered (ae_ranged content rr edge n) = [].
 Proof.
-  induction aes as [|ae aes IH]; intros seen Hs; [constructor|]. cbn [run_ae].
+  unfold ae_ranged. destruct (set_ranged_headers rr (Z.of_nat (length content)) 200) as [[st hs] rr'].
+  destruct rr' as [r|]; [destruct (Z.eqb st 206); [destruct (send_slice _ _ _)|]|]; reflexivity.
+Qed.
+
+(* an answer is either the wildcard (a part of an entry, in that entry's encoding) or carries an allowed encoding *)
+Definition obs_ok (ce ae : str) (seen : list (str * str)) (o : sx) : Prop :=
+  (o = s_enc_slice /\ exists d, find (fun p => str_eqb (fst p) ae) seen = Some (ae, d) /\ ae_allowed (ae_value ae) ce d)
+  \/ ae_allowed (ae_value ae) ce (obs_delivered o).
+
+Lemma run_ae_allowed recomp ce ct cc content : forall aes rngs seen,
+  seen_ok ce seen ->
+  Forall2 (fun ae o => exists seen', seen_ok ce seen' /\ obs_ok ce ae seen' o) aes (run_ae recomp ce ct cc content aes rngs seen).
+Proof.
+  induction aes as [|ae aes IH]; intros rngs seen Hs; [constructor|]. cbn [run_ae].
   destruct (find (fun p => str_eqb (fst p) ae) seen) as [[k d]|] eqn:Hf.
   - assert (Ek : k = ae).
     { apply find_some in Hf as [_ E]. cbn in E. apply str_eqb_eq in E. exact E. }
-    subst k. constructor; [exact (find_seen ce seen ae d Hs Hf) | apply IH; exact Hs].
-  - constructor; [apply ae_delivered_allowed|]. apply IH. constructor; [apply ae_delivered_allowed | exact Hs].
+    subst k. pose proof (find_seen ce seen ae d Hs Hf) as Hd. constructor; [|apply IH; exact Hs].
+    exists seen. split; [exact Hs|].
+    destruct (if nonempty (hd [] rngs) then get_range (hd [] rngs) else None) as [r|].
+    + destruct (nonempty d) eqn:En.
+      * left. split; [reflexivity|]. exists d. split; assumption.
+      * right. rewrite ae_ranged_delivered. right. left. reflexivity.
+    + right. exact Hd.
+  - constructor.
+    + exists seen. split; [exact Hs|]. right.
+      destruct (if nonempty (hd [] rngs) then get_range (hd [] rngs) else None) as [r|].
+      * destruct (str_eqb (ae_delivered recomp (ae_value ae) ce ct cc) ce && negb (nonempty ce));
+          [rewrite ae_ranged_delivered; right; left; reflexivity | apply ae_delivered_allowed].
+      * apply ae_delivered_allowed.
+    + apply IH. constructor; [apply ae_delivered_allowed | exact Hs].
 Qed.
